@@ -571,7 +571,15 @@ def _corr_cancel(ctx, rec, deep):
                 ctx.fail("simplify_inv_subs:k=%d:%s" % (k, ";".join(chain)),
                          "chain %r cancelled to %r: %s" % (chain, after, why), dict(kind="cancel", k=k, chain=chain))
             x1, x2 = comp.fast(chain, thetas[0]), comp.symbolic(chain, thetas[0])
-            if not all(b is not None and _close(a, b) for a, b in zip(x1, x2)):
+            def _real(v):
+                try:
+                    return abs(complex(v).imag) <= 1e-12 * max(1.0, abs(complex(v).real))
+                except Exception:
+                    return False
+            # the two evaluators are compared on real values only: off the real axis (odd root of a negative number)
+            # numpy's and sympy's principal branches legitimately differ, and the property speaks of real parameters
+            if all(b is not None and _real(a) and _real(b) for a, b in zip(x1, x2)) and \
+                    not all(_close(a, b) for a, b in zip(x1, x2)):
                 ctx.disagree("oracle:composition-order", "chain %r at %r: right-to-left function composition %r, sympy loop %r" % (chain, thetas[0], x1, x2))
             stats["convert_params_checked"] += _via_convert_params(ctx, S, comp, k, chain, after, thetas[0])
         if len(sample_changed) < 3 and changed:
